@@ -5,15 +5,16 @@
     [kinds_cert fe fa fc = assemble_cert fe fa && compute_cert3 fe fc] is decided by vm_compute on
     the real IR of every swept problem (tools/props/_certs_kinds.py).
 
-    Proved here, for ALL inputs, fuel and initial capacities: the evaluate ~ assemble half.
-    The evaluate ~ compute half ([compute_cert3]) is CHECKED on every kernel, its soundness
-    statement is [CERT_kinds_compute_full] below (a Definition, not yet a theorem); see
-    design.d/CERT_kinds.md. *)
+    Proved here, for ALL inputs, fuel and initial capacities: evaluate ~ assemble (kernel level and
+    for the harness' initial states), evaluate ~ compute (kernel level, from any pair of states
+    satisfying [PreC]: compute started where [out->vals] is a live double block, the inputs being
+    the same).  What is not yet a theorem is the glue "assemble's final state satisfies [PreC]
+    against the initial state" ([CERT_kinds_history_full] below); see design.d/CERT_kinds.md. *)
 
 From Coq Require Import ZArith Bool List String FMapPositive.
 From Flocq Require Import Core BinarySingleNaN.
 From TV Require Import spec.Num gen.IRAst spec.IRSem spec.IRRun
-  proofs.Certs2Base proofs.Certs3Defs proofs.Certs3Base proofs.Certs3Asm.
+  proofs.Certs2Base proofs.Certs3Defs proofs.Certs3Base proofs.Certs3Asm proofs.Certs3Cmp.
 Import ListNotations.
 Open Scope Z_scope.
 
@@ -124,11 +125,83 @@ Proof. vm_compute. reflexivity. Qed.
 Example CERT_kinds_example_rejects : assemble_cert ex_evaluate ex_assemble_bad = false.
 Proof. vm_compute. reflexivity. Qed.
 
-(** NOT YET PROVED (the certificate [compute_cert3] is evaluated on every real kernel, so a
-    generator change that breaks the alignment is reported; what is missing is this theorem):
-    evaluate ~ compute started on assemble's result.  [EOutOfBounds] is the one failure that
-    cannot be excluded syntactically: compute stores into a value block of evaluate's FINAL size. *)
-Definition CERT_kinds_compute_full : Prop :=
+(** ... and a compute kernel: evaluate minus allocation, structure store and field assignments *)
+Definition ex_compute : function_definition :=
+  FunctionDefinition (Var "compute") ex_params TInteger
+    (Block [DeclarationAssignment (Declaration (Var "a_crd") (TPointer TInteger))
+              (ArrayIndex (ArrayIndex (AttributeAccess (Var "a") "indices") (IntegerLiteral 0)) (IntegerLiteral 1));
+            DeclarationAssignment (Declaration (Var "a_vals") (TPointer TFloat)) (AttributeAccess (Var "a") "vals");
+            DeclarationAssignment (Declaration (Var "b_crd") (TPointer TInteger))
+              (ArrayIndex (ArrayIndex (AttributeAccess (Var "b") "indices") (IntegerLiteral 0)) (IntegerLiteral 1));
+            DeclarationAssignment (Declaration (Var "b_vals") (TPointer TFloat)) (AttributeAccess (Var "b") "vals");
+            DeclarationAssignment (Declaration (Var "p") TInteger) (IntegerLiteral 0);
+            Loop (LessThan (Var "p") (IntegerLiteral 2))
+              (Block [Assignment (ArrayIndex (Var "a_vals") (Var "p")) (ArrayIndex (Var "b_vals") (Var "p"));
+                      Assignment (Var "p") (Add (Var "p") (IntegerLiteral 1))] None);
+            Return (IntegerLiteral 0)] None).
+Example CERT_kinds_example_compute : kinds_cert ex_evaluate ex_assemble ex_compute = true.
+Proof. vm_compute. reflexivity. Qed.
+
+(** evaluate ~ compute, statement level: aligned bodies in [RCx]-related states (phase [ph]); the
+    only failure allowed on the compute side is [EOutOfBounds] ([OKF]).  The five side conditions
+    are what [compute_cert3] checks about the roles. *)
+Theorem CERT_kinds_compute_stmt :
+  forall rl U tout bV,
+    (forall x, mem x (r_os rl) = true -> mem x (r_ip rl) = true) ->
+    (forall x, mem x (r_v rl) = true -> mem x (r_fp rl) = true) ->
+    (forall x, mem x (r_ip rl) = true -> mem x (r_fp rl) = false) ->
+    mem (r_root rl) (r_v rl) = true ->
+    (forall T, mem T (pars rl) = true -> rdC rl U T = true) ->
+  forall n sE sC ph ph' a c,
+    align bool Bool.eqb (sexpC rl U false) (keepC rl U) (dropC rl U) ph sE sC = Some ph' ->
+    RCx rl U tout bV ph a c ->
+    osimK bool (RCx rl U tout bV) OKF ph' (exec n sE a) (exec n sC c).
+Proof. exact alignC_stmt_sound. Qed.
+Print Assumptions CERT_kinds_compute_stmt.
+
+(** Kernel level.  [PreC rl tout bV a c]: [a] (where evaluate starts) is well typed; every input
+    block of [a] is the same block in [c] (where compute starts); the input tensor structs agree
+    and their arrays are input blocks; the output struct has the same dimensions and as many
+    levels on both sides, in [a] its [vals] is NULL, in [c] its fields are pointers and [vals] is
+    [(bV, 0)] with [bV] a live, writable double block (of ANY content -- so this also covers
+    re-running compute on re-valued inputs over stale values).  If evaluate returns [v], compute
+    (same fuel) returns [v] in an [RC]-related state, or fails with [EOutOfBounds] -- nothing else:
+    no other trap, no exhaustion of that fuel, no fall-through. *)
+Theorem CERT_kinds_compute_sound :
+  forall fe fc, compute_cert3 fe fc = true ->
+  forall fuel tout bV ids a c, PreC (roles_of fe) tout bV a c -> ~ In tout ids ->
+  match call fuel fe (VTensor tout :: map VTensor ids) a with
+  | Returned a' v _ =>
+      (exists c' tr', call fuel fc (VTensor tout :: map VTensor ids) c = Returned c' v tr' /\
+         exists ph cur, RC (roles_of fe) (assigned_only_in fe fc) tout bV ph cur a' c') \/
+      call fuel fc (VTensor tout :: map VTensor ids) c = Fail EOutOfBounds
+  | _ => True
+  end.
+Proof. exact compute_cert3_sound. Qed.
+Print Assumptions CERT_kinds_compute_sound.
+
+(** What [RC] says about the values: if evaluate's final [out->vals] designates a live block
+    [b], it is [(b, 0)], compute's [out->vals] is still [(bV, 0)], and every initialised cell of [b]
+    with index below the length of [bV] has the SAME content in [bV] (cells evaluate left
+    uninitialised -- the scratch cell -- are unconstrained). *)
+Theorem CERT_kinds_compute_values :
+  forall rl U tout bV ph cur a c, RC rl U tout bV ph cur a c ->
+  exists tsa tsc, PM.find tout (tensors a) = Some tsa /\ PM.find tout (tensors c) = Some tsc /\
+    t_dims tsa = t_dims tsc /\ t_vals tsc = VPtr bV 0 /\
+    forall b o be, t_vals tsa = VPtr b o -> PM.find b (heap a) = Some be -> b_live be = true ->
+      o = 0 /\ exists bc, PM.find bV (heap c) = Some bc /\ b_live bc = true /\ b_float bc = true /\
+                          sub_cells (b_len bc) (b_cells be) (b_cells bc).
+Proof. exact RC_values. Qed.
+Print Assumptions CERT_kinds_compute_values.
+
+(** NOT YET A THEOREM: the history statement of the harness.  Missing glue: the state assemble ends
+    in satisfies [PreC] against the initial state (assemble leaves the input blocks and input
+    structs alone -- cf. CERT_input_safe_sound --, and leaves [out->vals] a live double block, the
+    same block identifier as evaluate's final value block by CERT_kinds_assemble_sound), plus
+    reading [check_output] through [CERT_kinds_same_structure] / [CERT_kinds_compute_values].
+    [EOutOfBounds] is the one failure that cannot be excluded syntactically: compute stores into a
+    value block of evaluate's FINAL size. *)
+Definition CERT_kinds_history_full : Prop :=
   forall fe fa fc, kinds_cert fe fa fc = true ->
   forall fuel ts exp vals exact,
     run_check fuel fe ts exp vals exact = VOk ->
